@@ -24,6 +24,8 @@ const CLASSES: &[&str] = &[
     // a leading part of the right signature (or nothing) where the signature belongs
     "v4-header/truncated-signature", "v4-presigned/truncated-signature", "v2-header/truncated-signature", "v2-presigned/truncated-signature", "v4-header/empty-signature",
     "v4-presigned/empty-signature", "v2-header/empty-signature", "v2-presigned/empty-signature",
+    // validly signed for another service / region of the credential scope: still somebody whose request the hook must see
+    "v4-header/scope-service-sts", "v4-presigned/scope-service-sts", "v4-header/scope-other-region",
 ];
 const HOOKS: &[&str] = &["none", "allow", "deny", "deny-op", "deny-typed"];
 const ROUTES: &[&str] = &["none", "matching", "non-matching"];
@@ -74,8 +76,15 @@ fn make(class: &str, base: &RawRequest) -> RawRequest {
     let digest = sha256_hex(&r.body);
     match class {
         "anonymous" => {}
-        "v4-header" | "v4-header/bad-signature" | "v4-header/unknown-key" | "duplicated-authorization" | "v4-header/unsigned-payload" | "v4-header/truncated-signature" | "v4-header/empty-signature" => {
+        "v4-header" | "v4-header/bad-signature" | "v4-header/unknown-key" | "duplicated-authorization" | "v4-header/unsigned-payload" | "v4-header/truncated-signature" | "v4-header/empty-signature"
+        | "v4-header/scope-service-sts" | "v4-header/scope-other-region" => {
             let mut p = params();
+            if class == "v4-header/scope-service-sts" {
+                p.service = "sts".into();
+            }
+            if class == "v4-header/scope-other-region" {
+                p.region = "verif-region-9".into();
+            }
             if class == "v4-header/unknown-key" {
                 p.access_key = "AKIDNOBODYKNOWSME001".into();
             }
@@ -99,8 +108,12 @@ fn make(class: &str, base: &RawRequest) -> RawRequest {
                 r.headers.push(a);
             }
         }
-        "v4-presigned" | "v4-presigned/bad-signature" | "v4-presigned/truncated-signature" | "v4-presigned/empty-signature" => {
-            v4_presign(&mut r, &params(), 3600, &["host"]);
+        "v4-presigned" | "v4-presigned/bad-signature" | "v4-presigned/truncated-signature" | "v4-presigned/empty-signature" | "v4-presigned/scope-service-sts" => {
+            let mut p = params();
+            if class == "v4-presigned/scope-service-sts" {
+                p.service = "sts".into();
+            }
+            v4_presign(&mut r, &p, 3600, &["host"]);
             if let Some(keep) = sig_keep(class) {
                 if let Some((head, sig)) = r.uri.clone().rsplit_once("X-Amz-Signature=") {
                     r.uri = format!("{head}X-Amz-Signature={}", &sig[..keep.min(sig.len())]);
@@ -166,7 +179,7 @@ enum Identity {
 fn expected_identity(class: &str) -> Identity {
     match class {
         "anonymous" => Identity::Anonymous,
-        "v4-header" | "v4-presigned" | "v2-header" | "v2-presigned" | "v4-header/unsigned-payload" | "post-form" => Identity::Signer,
+        "v4-header" | "v4-presigned" | "v2-header" | "v2-presigned" | "v4-header/unsigned-payload" | "post-form" | "v4-header/scope-service-sts" | "v4-presigned/scope-service-sts" | "v4-header/scope-other-region" => Identity::Signer,
         "duplicated-authorization" => Identity::RefusedOrAnonymous,
         _ => Identity::Refused,
     }
